@@ -264,8 +264,17 @@ def selector(F):
         b = bs[0]
         defs = Defs(b)
         sel = [l for l in range(1, b["arg_count"] + 1) if b.lty(l)["s"].endswith("Contributions")]
-        res_calls = [bi for bi, t in b.calls() if callee(t)[2] == "get_or_compute_derivative_residual"]
-        ig_calls = [bi for bi, t in b.calls() if callee(t)[2] == "ideal_gas_helmholtz_energy"]
+        def _reaches(t, name, depth=0):
+            """the call is `name`, or a private helper of State (e.g. an extracted `compute_derivative_ideal_gas`) that evaluates it"""
+            if callee(t)[2] == name:
+                return True
+            cb = F.callee_body(t)
+            if cb is None or depth > 1 or not cb.path.startswith("feos_core::state::") or cb.get("vis") == "Public":
+                return False
+            bodies = [cb] + [c for c in F.bodies if c.is_closure() and (c.d.get("parent") or "") == cb.path]
+            return any(_reaches(t2, name, depth + 1) for x in bodies for _, t2 in x.calls())
+        res_calls = [bi for bi, t in b.calls() if _reaches(t, "get_or_compute_derivative_residual")]
+        ig_calls = [bi for bi, t in b.calls() if _reaches(t, "ideal_gas_helmholtz_energy") and bi not in res_calls]
         if len(sel) != 1 or not res_calls or not ig_calls:
             r.fail("selector|derivative|shape", b.file_line(), "get_or_compute_derivative: selector parameter or part evaluations not found")
         else:
@@ -326,7 +335,70 @@ def selector(F):
                             opt_ideal = list(value_roots(b, defs, a0["place"]))[0]
                             opt_res = list(value_roots(b, defs, a1["place"]))[0]
             if opt_ideal is None:
-                r.fail("selector|derivative|combine-shape", b.file_line(), "get_or_compute_derivative: final `match (ideal_gas, residual)` not found")
+                # no (Option, Option) pair: the parts are combined directly in the arms of a match on the selector.  For each
+                # variant, the value returned on the paths consistent with it is a sum (`+` only) of exactly the wanted parts.
+                part_of = {}
+                for bi in res_calls:
+                    part_of[b.blocks[bi]["term"]["dest"]["l"]] = "residual"
+                for bi in ig_calls:
+                    part_of[b.blocks[bi]["term"]["dest"]["l"]] = "ideal"
+                for vi, v in enumerate(variants):
+                    reach = consistent_reach(b, defs, {sel[0]: str(vi)})
+                    got = set()
+                    work = []
+                    for bi, si2, st in b.stmts():
+                        if bi in reach and st["place"]["l"] == 0 and not st["place"]["p"]:
+                            work.append(("rv", st["rv"]))
+                    for bi, t in b.calls():
+                        if bi in reach and t["dest"]["l"] == 0 and not t["dest"]["p"]:
+                            work.append(("call", bi, t))
+                    seen = set()
+                    steps = 0
+                    while work and steps < 200:
+                        steps += 1
+                        w = work.pop()
+                        ops = []
+                        if w[0] == "call":
+                            bi, t = w[1], w[2]
+                            if bi in res_calls:
+                                got.add("residual")
+                            elif bi in ig_calls:
+                                got.add("ideal")
+                            elif callee(t)[2] == "add":
+                                ops = t["args"]
+                            else:
+                                got.add("other:" + str(callee(t)[2]))
+                        else:
+                            rv = w[1]
+                            if rv["k"] == "use":
+                                ops = [rv["op"]]
+                            elif rv["k"] == "binop" and rv["op"] == "Add":
+                                ops = [rv["a"], rv["b"]]
+                            elif rv["k"] == "binop":
+                                got.add("non-add:" + rv["op"])
+                            else:
+                                got.add("other:" + rv["k"])
+                        for o in ops:
+                            if o.get("k") not in ("copy", "move"):
+                                got.add("const")
+                                continue
+                            l = o["place"]["l"]
+                            if l in seen:
+                                continue
+                            seen.add(l)
+                            for d in defs.of(l):
+                                if d[0] == "call":
+                                    if d[1] in reach:
+                                        work.append(("call", d[1], d[2]))
+                                elif d[1] in reach:
+                                    work.append(("rv", d[4]))
+                    iid = "selector|derivative|combine(%s)" % v
+                    if got == want[v]:
+                        r.inst(iid, b.file_line(), "ok")
+                    else:
+                        r.inst(iid, b.file_line(), "violation", got=sorted(got))
+                        r.fail(iid, b.file_line(), "get_or_compute_derivative returns the combination %s for Contributions::%s (expected the sum of %s)" % (
+                            sorted(got), v, sorted(want[v])))
             else:
                 # which Option local holds which part: by the call feeding its Some(..)
                 def feeds(opt, blocks):
@@ -553,20 +625,39 @@ def identifier(F):
         r.fail("identifier|missing", "-", "IdentifierOption / Identifier::as_string not found")
         return r
     b = bs[0]
+    # the selection may be delegated (`as_string` = `self.as_str(option).map(str::to_owned)`): follow the selector argument
+    for _ in range(2):
+        sel = [l for l in range(1, b["arg_count"] + 1) if b.lty(l)["s"].endswith("IdentifierOption")]
+        has_switch = False
+        defs = Defs(b)
+        for blk in b.blocks:
+            t = blk["term"]
+            if t["k"] == "switch" and t["op"].get("k") in ("copy", "move"):
+                for d in defs.of(t["op"]["place"]["l"]):
+                    if d[0] == "stmt" and d[4]["k"] == "discr" and d[4]["place"]["l"] in sel:
+                        has_switch = True
+        if has_switch:
+            break
+        nxt = None
+        for bi, t in b.calls():
+            cb = F.callee_body(t)
+            if cb is not None and "identifier::Identifier::" in cb.path and any(
+                    a.get("k") in ("copy", "move") and (set(sel) & provenance(b, defs, [a["place"]["l"]])[0]) for a in t["args"]):
+                nxt = cb
+        if nxt is None:
+            break
+        b = nxt
     defs = Defs(b)
     sel = [l for l in range(1, b["arg_count"] + 1) if b.lty(l)["s"].endswith("IdentifierOption")]
     for vi, v in enumerate(variants):
         reach = consistent_reach(b, defs, {sel[0]: str(vi)})
         fields = set()
-        for bi, t in b.calls():
-            if bi in reach and t["dest"]["l"] == 0:
-                for a in t["args"]:
-                    if a["k"] in ("copy", "move"):
-                        for d in defs.of(a["place"]["l"]):
-                            if d[0] == "stmt" and d[4]["k"] == "ref":
-                                for p in d[4]["place"]["p"]:
-                                    if isinstance(p, dict) and "f" in p:
-                                        fields.add(p["n"])
+        # the fields of `self` borrowed on the paths taken for this variant (each arm borrows exactly its own field)
+        for bi, si, st in b.stmts():
+            if bi in reach and st["rv"]["k"] == "ref" and st["rv"]["place"]["l"] == 1:
+                for p in st["rv"]["place"]["p"]:
+                    if isinstance(p, dict) and "f" in p:
+                        fields.add(p["n"])
         iid = "identifier|%s" % v
         if fields == {snake(v)}:
             r.inst(iid, b.file_line(), "ok", field=snake(v))
